@@ -398,11 +398,11 @@ package restful
 //@ nopanic
 //@ loop 0 invariant fresh: fresh(methods)
 //@ loop 0 invariant S/sound: forall(0, len(methods), func(m int) bool { return exists(0, len(c.webServices), func(i int) bool { return svcAllows(c.webServices[i], requestPath, methods[m]) }) })
-//@ loop 0 invariant K/complete: forall(0, it_i, func(i int) bool { return forallStr(func(me string) bool { return svcAllows(c.webServices[i], requestPath, me) ==> exists(0, len(methods), func(m int) bool { return methods[m] == me }) }) })
+//@ loop 0 invariant K.C/complete: forall(0, it_i, func(i int) bool { return forallStr(func(me string) bool { return svcAllows(c.webServices[i], requestPath, me) ==> exists(0, len(methods), func(m int) bool { return methods[m] == me }) }) })
 //@ loop 1 invariant fresh: fresh(methods)
 //@ loop 1 invariant member: it_o < len(c.webServices) && ws == c.webServices[it_o] && jsrSvcHit(ws, requestPath) && finalMatch == jsrFinal(ws, requestPath)
 //@ loop 1 invariant S/sound: forall(0, len(methods), func(m int) bool { return exists(0, len(c.webServices), func(i int) bool { return svcAllows(c.webServices[i], requestPath, methods[m]) }) })
-//@ loop 1 invariant K/complete: forall(0, it_o, func(i int) bool { return forallStr(func(me string) bool { return svcAllows(c.webServices[i], requestPath, me) ==> exists(0, len(methods), func(m int) bool { return methods[m] == me }) }) })
+//@ loop 1 invariant K.C/complete: forall(0, it_o, func(i int) bool { return forallStr(func(me string) bool { return svcAllows(c.webServices[i], requestPath, me) ==> exists(0, len(methods), func(m int) bool { return methods[m] == me }) }) })
 //@ loop 1 invariant K/partial: forall(0, it_i, func(j int) bool { return jsrRouteHit(ws.routes[j], finalMatch) ==> exists(0, len(methods), func(m int) bool { return methods[m] == ws.routes[j].Method }) })
 
 //@ func (*CrossOriginResourceSharing).doPreflightRequest
@@ -656,16 +656,35 @@ package restful
 //@ ensures sound: result0 != nil ==> result1 == nil && candOK(result0, routes, httpRequest, 3)
 //@ ensures error: result0 == nil ==> result1 != nil
 //@ ensures indexed: result0 != nil ==> 0 <= ptrIndex(result0, routes) && ptrIndex(result0, routes) < len(routes) && same(*result0, routes[ptrIndex(result0, routes)])
+// C02: a route is returned exactly when some route passes conditions, method, Content-Type and Accept
+//@ ensures K/exact-ok: (result0 != nil) == old(anyPasses(routes, httpRequest, 3))
+// C03: among the routes that pass, the one that comes first in the (ranked) list is returned
+//@ ensures K/first: result0 != nil ==> forall(0, ptrIndex(result0, routes), func(j int) bool { return !old(passes(routes[j], httpRequest, 3)) })
+// C02: the error status is decided by the first stage that leaves nothing
+//@ ensures K/status-404: !old(anyPasses(routes, httpRequest, 0)) ==> statusOf(result1) == 404
+//@ ensures K/status-405: old(anyPasses(routes, httpRequest, 0)) && !old(anyPasses(routes, httpRequest, 1)) ==> statusOf(result1) == 405
+//@ ensures K/status-415: old(anyPasses(routes, httpRequest, 1)) && !old(anyPasses(routes, httpRequest, 3)) && ((!old(anyPasses(routes, httpRequest, 2)) && httpRequest.ContentLength > 0) || bodiless(httpRequest)) ==> statusOf(result1) == 415
+//@ ensures K/status-406: old(anyPasses(routes, httpRequest, 1)) && !old(anyPasses(routes, httpRequest, 3)) && !((!old(anyPasses(routes, httpRequest, 2)) && httpRequest.ContentLength > 0) || bodiless(httpRequest)) ==> statusOf(result1) == 406
 //@ modifies nothing
 //@ nopanic
 //@ opt opaque ctAdmits acceptAdmits noEmptyEntry
 //@ loop 0 invariant fresh: fresh(candidates) && len(candidates) <= it_i
 //@ loop 0 invariant sound: forall(0, len(candidates), func(j int) bool { return candOK(candidates[j], routes, httpRequest, 0) })
+//@ loop 0 invariant K.C/complete: forall(0, it_i, func(j int) bool { return passes(routes[j], httpRequest, 0) ==> inCands(candidates, 0, len(candidates), ptrAt(routes, j)) })
+//@ loop 0 invariant K/wit: len(candidates) > 0 ==> witOK(candidates[0], routes, httpRequest, 0)
+//@ loop 0 invariant K.O/ordered: forall(0, len(candidates), func(a int) bool { return forall(a+1, len(candidates), func(b int) bool { return ptrIndex(candidates[a], routes) < ptrIndex(candidates[b], routes) }) })
+//@ loop 0 invariant K.O/below: forall(0, len(candidates), func(a int) bool { return ptrIndex(candidates[a], routes) < it_i })
 //@ loop 1 invariant conds: ok == forall(0, it_i, func(j int) bool { return each.If[j](httpRequest) })
 // method stage (in-place filter over the same backing array)
 //@ loop 2 invariant array: fresh(previous) && sameStart(candidates, previous) && cap(candidates) == cap(previous) && len(candidates) <= it_i
 //@ loop 2 invariant sound: forall(0, len(candidates), func(j int) bool { return candOK(candidates[j], routes, httpRequest, 1) })
 //@ loop 2 invariant untouched: forall(len(candidates), len(previous), func(j int) bool { return candOK(previous[j], routes, httpRequest, 0) })
+//@ loop 2 invariant K.C/complete: forall(0, len(routes), func(j int) bool { return passes(routes[j], httpRequest, 1) ==> inCands(candidates, 0, len(candidates), ptrAt(routes, j)) || inCands(previous, it_i, len(previous), ptrAt(routes, j)) })
+//@ loop 2 invariant K/wit: len(candidates) > 0 ==> witOK(candidates[0], routes, httpRequest, 1)
+//@ loop 2 invariant K.O/ordered: forall(0, len(candidates), func(a int) bool { return forall(a+1, len(candidates), func(b int) bool { return ptrIndex(candidates[a], routes) < ptrIndex(candidates[b], routes) }) })
+//@ loop 2 invariant K.O/tail: forall(it_i, len(previous), func(a int) bool { return forall(a+1, len(previous), func(b int) bool { return ptrIndex(previous[a], routes) < ptrIndex(previous[b], routes) }) })
+//@ loop 2 invariant K.O/cross: forall(0, len(candidates), func(a int) bool { return forall(it_i, len(previous), func(b int) bool { return ptrIndex(candidates[a], routes) < ptrIndex(previous[b], routes) }) })
+//@ loop 2 invariant K/some0: anyPasses(routes, httpRequest, 0)
 // 405: collecting the allowed methods (C17: exactly the methods of the candidates, each once)
 //@ callsite NewErrorWithHeader [C02 C17] allow-sound: arg0 == 405 ==> forall(0, len(allowed), func(i int) bool { return exists(0, len(previous), func(j int) bool { return previous[j].Method == allowed[i] }) })
 //@ callsite NewErrorWithHeader [C02 C17] allow-once: arg0 == 405 ==> forall(0, len(allowed), func(i int) bool { return forall(i+1, len(allowed), func(k int) bool { return allowed[i] != allowed[k] }) })
@@ -682,10 +701,24 @@ package restful
 //@ loop 5 invariant array: fresh(previous) && sameStart(candidates, previous) && cap(candidates) == cap(previous) && len(candidates) <= it_i
 //@ loop 5 invariant sound: forall(0, len(candidates), func(j int) bool { return candOK(candidates[j], routes, httpRequest, 2) })
 //@ loop 5 invariant untouched: forall(len(candidates), len(previous), func(j int) bool { return candOK(previous[j], routes, httpRequest, 1) })
+//@ loop 5 invariant K.C/complete: forall(0, len(routes), func(j int) bool { return passes(routes[j], httpRequest, 2) ==> inCands(candidates, 0, len(candidates), ptrAt(routes, j)) || inCands(previous, it_i, len(previous), ptrAt(routes, j)) })
+//@ loop 5 invariant K/wit: len(candidates) > 0 ==> witOK(candidates[0], routes, httpRequest, 2)
+//@ loop 5 invariant K.O/ordered: forall(0, len(candidates), func(a int) bool { return forall(a+1, len(candidates), func(b int) bool { return ptrIndex(candidates[a], routes) < ptrIndex(candidates[b], routes) }) })
+//@ loop 5 invariant K.O/tail: forall(it_i, len(previous), func(a int) bool { return forall(a+1, len(previous), func(b int) bool { return ptrIndex(previous[a], routes) < ptrIndex(previous[b], routes) }) })
+//@ loop 5 invariant K.O/cross: forall(0, len(candidates), func(a int) bool { return forall(it_i, len(previous), func(b int) bool { return ptrIndex(candidates[a], routes) < ptrIndex(previous[b], routes) }) })
+//@ loop 5 invariant K/some1: anyPasses(routes, httpRequest, 1)
 // accept stage
 //@ loop 6 invariant array: fresh(previous) && sameStart(candidates, previous) && cap(candidates) == cap(previous) && len(candidates) <= it_i
 //@ loop 6 invariant sound: forall(0, len(candidates), func(j int) bool { return candOK(candidates[j], routes, httpRequest, 3) && accept == acceptOf(httpRequest) })
 //@ loop 6 invariant untouched: forall(len(candidates), len(previous), func(j int) bool { return candOK(previous[j], routes, httpRequest, 2) })
+//@ loop 6 invariant K.C/complete: forall(0, len(routes), func(j int) bool { return passes(routes[j], httpRequest, 3) ==> inCands(candidates, 0, len(candidates), ptrAt(routes, j)) || inCands(previous, it_i, len(previous), ptrAt(routes, j)) })
+//@ loop 6 invariant K/wit: len(candidates) > 0 ==> witOK(candidates[0], routes, httpRequest, 3)
+//@ loop 6 invariant K.O/ordered: forall(0, len(candidates), func(a int) bool { return forall(a+1, len(candidates), func(b int) bool { return ptrIndex(candidates[a], routes) < ptrIndex(candidates[b], routes) }) })
+//@ loop 6 invariant K.O/tail: forall(it_i, len(previous), func(a int) bool { return forall(a+1, len(previous), func(b int) bool { return ptrIndex(previous[a], routes) < ptrIndex(previous[b], routes) }) })
+//@ loop 6 invariant K.O/cross: forall(0, len(candidates), func(a int) bool { return forall(it_i, len(previous), func(b int) bool { return ptrIndex(candidates[a], routes) < ptrIndex(previous[b], routes) }) })
+//@ loop 6 invariant K/some1: anyPasses(routes, httpRequest, 1)
+//@ loop 6 invariant K/some2: (len(previous) > 0) == anyPasses(routes, httpRequest, 2)
+//@ loop 6 invariant K/nobody: len(previous) == 0 ==> httpRequest.ContentLength <= 0
 //@ loop 6 invariant accept: accept == acceptOf(httpRequest)
 // 406/415: collecting the available representations
 //@ loop 7 invariant fresh: fresh(available)
@@ -1240,3 +1273,67 @@ package restful
 //@ loop 0 invariant rest-vals: forall(1, len(webServiceMatches), func(i int) bool { return groupBinds(webServiceExpr.VarNames, i) && lastBinding(webServiceExpr.VarNames, len(webServiceMatches), i) && !visited(webServiceExpr.VarNames[i-1]) ==> pathParameters[webServiceExpr.VarNames[i-1]] == webServiceMatches[i] })
 //@ loop 0 invariant route-keys: forallStr(func(k string) bool { return strMapHas(routeParams, k) == routeBinds(route, webService, urlPath, k) })
 //@ loop 0 invariant route-vals: forall(1, len(routeMatches), func(i int) bool { return groupBinds(routeExpr.VarNames, i) && lastBinding(routeExpr.VarNames, len(routeMatches), i) ==> routeParams[routeExpr.VarNames[i-1]] == routeMatches[i] })
+
+// ---------------------------------------------------------------------------
+// entry points other than Dispatch (C07 C10 C13)
+
+//@ func (*Container).serveMux
+//@ props C07 C10 C12
+//@ requires c != nil && servicesLock(c) == 0
+//@ ensures result == c.ServeMux && servicesLock(c) == 0
+//@ modifies nothing
+//@ nopanic
+
+//@ func ext:(*net/http.ServeMux).ServeHTTP
+//@ props C07 C10
+//@ trusted A-CB: the mux runs whatever handler is registered for the URL (dispatch, a plain handler, its own 404/redirect): a callback that may write headers and the response, or panic
+//@ requires self != nil
+//@ modifies headers, ghost $trace
+
+// ServeHTTP: wraps the writer at most once, hands the mux the writer in use, and closes what it installed on every exit
+//@ func (*Container).ServeHTTP
+//@ props C07 C10 C13
+//@ requires c != nil && c.ServeMux != nil && httpWriter != nil && httpRequest != nil && servicesLock(c) == 0
+//@ requires crw: !isCRW(httpWriter) || httpWriter.(*CompressingResponseWriter) != nil
+//@ requires distinct: !same(hdrOf(httpWriter), httpRequest.Header)
+//@ modifies headers, ghost $trace, ghost $g.held, ghost $g.ztarget, ghost $g.zclosed, ghost $g.accepted, ghost $g.lasterr, ghost $g.wcalls, ghost $g.wstatus, ghost $g.whcalls, ghost $g.own.closes, ghost $g.own.acquired, ghost $g.own.released
+//@ ensures lock-balance: servicesLock(c) == 0
+//@ signals lock-balance: servicesLock(c) == 0
+//@ ensures pool-balance: ghostInt("own.acquired", currentCompressorProvider) - ghostIntAtEntry("own.acquired", currentCompressorProvider) == ghostInt("own.released", currentCompressorProvider) - ghostIntAtEntry("own.released", currentCompressorProvider)
+//@ signals pool-balance: ghostInt("own.acquired", currentCompressorProvider) - ghostIntAtEntry("own.acquired", currentCompressorProvider) == ghostInt("own.released", currentCompressorProvider) - ghostIntAtEntry("own.released", currentCompressorProvider)
+// a writer that is already compressing is never wrapped again, and nothing is wrapped when encoding is off
+//@ callsite ext:(*net/http.ServeMux).ServeHTTP once: self == c.ServeMux && arg1 == httpRequest && ((isCRW(httpWriter) || !c.contentEncodingEnabled) ==> arg0 == httpWriter)
+// the mux gets the compressing writer exactly when a coding was asked for and the response is not yet encoded
+//@ callsite ext:(*net/http.ServeMux).ServeHTTP wrapped: !isCRW(httpWriter) && c.contentEncodingEnabled ==> arg0 == writer && (isCRW(writer) ==> fresh(writer.(*CompressingResponseWriter)) && strings.Contains(old(httpRequest.Header.Get("Accept-Encoding")), writer.(*CompressingResponseWriter).encoding) && old(hdrOf(httpWriter).Get("Content-Encoding")) == "") && (!isCRW(writer) ==> writer == httpWriter)
+//@ ensures closed: c.contentEncodingEnabled && !isCRW(httpWriter) && isCRW(writer) ==> ownCloses(writer.(*CompressingResponseWriter)) == ghostIntAtEntry("own.closes", writer.(*CompressingResponseWriter)) + 1
+//@ signals closed: c.contentEncodingEnabled && !isCRW(httpWriter) && isCRW(writer) ==> ownCloses(writer.(*CompressingResponseWriter)) == ghostIntAtEntry("own.closes", writer.(*CompressingResponseWriter)) + 1
+
+// the function Handle registers: the same wrapping discipline around a plain http.Handler
+//@ func (*Container).Handle$1
+//@ props C07 C10 C13
+//@ requires c != nil && handler != nil && httpWriter != nil && httpRequest != nil
+//@ requires crw: !isCRW(httpWriter) || httpWriter.(*CompressingResponseWriter) != nil
+//@ requires distinct: !same(hdrOf(httpWriter), httpRequest.Header)
+//@ modifies headers, ghost $trace, ghost $g.held, ghost $g.ztarget, ghost $g.zclosed, ghost $g.accepted, ghost $g.lasterr, ghost $g.wcalls, ghost $g.wstatus, ghost $g.whcalls, ghost $g.own.closes, ghost $g.own.acquired, ghost $g.own.released
+//@ ensures pool-balance: ghostInt("own.acquired", currentCompressorProvider) - ghostIntAtEntry("own.acquired", currentCompressorProvider) == ghostInt("own.released", currentCompressorProvider) - ghostIntAtEntry("own.released", currentCompressorProvider)
+//@ signals pool-balance: ghostInt("own.acquired", currentCompressorProvider) - ghostIntAtEntry("own.acquired", currentCompressorProvider) == ghostInt("own.released", currentCompressorProvider) - ghostIntAtEntry("own.released", currentCompressorProvider)
+//@ callsite iface:http.Handler.ServeHTTP once: self == handler && arg1 == httpRequest && ((isCRW(httpWriter) || !c.contentEncodingEnabled) ==> arg0 == httpWriter)
+//@ callsite iface:http.Handler.ServeHTTP wrapped: !isCRW(httpWriter) ==> arg0 == writer && (isCRW(writer) ==> c.contentEncodingEnabled && fresh(writer.(*CompressingResponseWriter)) && strings.Contains(old(httpRequest.Header.Get("Accept-Encoding")), writer.(*CompressingResponseWriter).encoding) && old(hdrOf(httpWriter).Get("Content-Encoding")) == "") && (!isCRW(writer) ==> writer == httpWriter)
+//@ ensures closed: !isCRW(httpWriter) && isCRW(writer) ==> ownCloses(writer.(*CompressingResponseWriter)) == ghostIntAtEntry("own.closes", writer.(*CompressingResponseWriter)) + 1
+//@ signals closed: !isCRW(httpWriter) && isCRW(writer) ==> ownCloses(writer.(*CompressingResponseWriter)) == ghostIntAtEntry("own.closes", writer.(*CompressingResponseWriter)) + 1
+
+// HandleWithFilter: a plain handler runs behind exactly the container filters (C06)
+//@ func (*Container).HandleWithFilter$1
+//@ props C06
+//@ requires c != nil && handler != nil && httpResponse != nil && httpRequest != nil
+//@ requires filters: forall(0, len(c.containerFilters), func(k int) bool { return c.containerFilters[k] != nil })
+//@ modifies headers, ghost $trace
+//@ callsite iface:http.Handler.ServeHTTP direct: len(c.containerFilters) == 0 && self == handler && arg0 == httpResponse && arg1 == httpRequest
+//@ callsite (*FilterChain).ProcessFilter chain: len(c.containerFilters) > 0 && fresh(arg0) && arg0.Index == 0 && same(arg0.Filters, c.containerFilters) && arg0.Target != nil && fresh(arg1) && arg1.Request == httpRequest && fresh(arg2) && arg2.ResponseWriter == httpResponse
+
+// ... and the chain's target hands the handler the response wrapper and the original request
+//@ func (*Container).HandleWithFilter$1$1
+//@ props C06
+//@ requires handler != nil && req != nil && resp != nil
+//@ modifies headers, ghost $trace
+//@ callsite iface:http.Handler.ServeHTTP target: self == handler && arg0 == resp && arg1 == req.Request
